@@ -228,6 +228,27 @@ STATEMENTS = [
     'return int(**{vk})',
     'return sorted(*{va})',
     'return sorted([], **{vk})',
+    # starred expressions that are not the function's own stars
+    'return g(*{va}, **NONE0)',
+    'return g(*NUM0, **{vk})',
+    'return g(*{va}, **STR0)',
+    'return g(*DICT0, **{vk})',
+    'return g(*{va}, **DICT0)',
+    'return g(*LIST0, *{va}, **{vk})',
+    'return g(*obj0.missing, **{vk})',
+    'return g(*{va}, **obj0.missing)',
+    'return g(*(), **{vk})',
+    'return g(*{va}, **{{}})',
+    'return f(1, *{va}, **{vk})',
+    # names whose resolution runs code of the program: failing getters, iterables that run code
+    'return obj0.raising_prop(*{va}, **{vk})',
+    'return obj0.raising_prop.deeper(*{va}, **{vk})',
+    'return obj0.key_prop(*{va}, **{vk})',
+    'return g(*GEN0, **{vk})',
+    'return g(*{va}, **MAP0)',
+    'return g(*ITERABLE0, **{vk})',
+    'return g(*GEN1, **{vk})',
+    'return f(*{va}, extra0=1, **{vk})',
     # nested definitions with every kind of parameter
     'def nested1(p, *, kwreq):\n    return g(*{va}, **{vk})\nreturn nested1(1, kwreq=2)',
     'r0 = lambda p, *, kwreq: g(*{va}, **{vk})',
@@ -331,6 +352,56 @@ WHOLE = [
     ('unhashable_forwarder', 'import dataclasses\n@dataclasses.dataclass\nclass Cfg:\n    n: int = 0\n'
                              '    def __call__(self, a, *args, **kwargs):\n        return g(*args, **kwargs)\n'
                              'cfg = Cfg()\npcfg = functools.partial(cfg, 1)\n', ['cfg', 'pcfg', 'Cfg']),
+    ('growing_recursion', 'def f(*a, **k):\n    return f(1, *a, **k)\n'
+                          'def f2(*a, **k):\n    return f2(*a, more=1, **k)\n'
+                          'def f3(a, *args, **kwargs):\n    return f4(a, a, *args, **kwargs)\n'
+                          'def f4(b, *args, **kwargs):\n    return f3(b, b, *args, **kwargs)\n', ['f', 'f2', 'f3', 'f4']),
+    ('callee_takes_no_self',
+     'def noargs():\n    return 0\n'
+     'class B0(object):\n'
+     '    def m(self, *args, **kwargs):\n        return noargs(*args, **kwargs)\n'
+     '    def m2(*args, **kwargs):\n        return noargs(*args, **kwargs)\n'
+     '    def m3(*args, **kwargs):\n        return g4(*args, **kwargs)\n'
+     '    def m4(*args):\n        return g4(*args)\n'
+     '    @classmethod\n    def cm(*args, **kwargs):\n        return noargs(*args, **kwargs)\n'
+     'b0 = B0()\n', ['b0.m', 'b0.m2', 'b0.m3', 'b0.m4', 'B0.m2', 'B0.cm', 'b0.cm']),
+    ('mock_objects',
+     'import unittest.mock as um\nmk = um.Mock()\nmm = um.MagicMock()\nncm = um.NonCallableMock()\n'
+     'spec_mock = um.Mock(spec=g)\nauto_mock = um.create_autospec(g)\n'
+     'def f(a, *args, **kwargs):\n    return mk(*args, **kwargs)\n'
+     'def f2(a, *args, **kwargs):\n    return auto_mock(*args, **kwargs)\n'
+     'wrapped_mock = functools.wraps(mk)(lambda *a, **k: mk(*a, **k))\n'
+     'umcall = um.call\numany = um.ANY\n',
+     ['mk', 'mm', 'ncm', 'spec_mock', 'auto_mock', 'f', 'f2', 'mk.method', 'wrapped_mock', 'umcall', 'umany']),
+    ('answers_every_attribute',
+     'class Echo(object):\n    def __getattr__(self, name):\n        return Echo()\n'
+     '    def __call__(self, x, y=1):\n        return x\n'
+     'class Lam(object):\n    def __getattr__(self, name):\n        return lambda *a, **k: None\n'
+     '    def __call__(self, x, y=1):\n        return x\n'
+     'class Num(object):\n    def __getattr__(self, name):\n        return 42\n'
+     '    def __call__(self, x, y=1):\n        return x\n'
+     'class Non(object):\n    def __getattr__(self, name):\n        return None\n'
+     '    def __call__(self, x, y=1):\n        return x\n'
+     'class Kerr(object):\n    def __getattr__(self, name):\n        raise KeyError(name)\n'
+     '    def __call__(self, x, y=1):\n        return x\n'
+     'class Dunder(object):\n    def __getattr__(self, name):\n'
+     '        if name.startswith("__"):\n            raise AttributeError(name)\n        return Dunder()\n'
+     '    def __call__(self, x, y=1):\n        return x\n'
+     'echo, lam, num, non, nodoc_kerr, dunder = Echo(), Lam(), Num(), Non(), Kerr(), Dunder()\n'
+     'def f(a, *args, **kwargs):\n    return dunder(*args, **kwargs)\n'
+     'def f2(a, *args, **kwargs):\n    return lam(*args, **kwargs)\n'
+     'def f3(a, *args, **kwargs):\n    return non(*args, **kwargs)\n',
+     ['echo', 'lam', 'num', 'non', 'nodoc_kerr', 'dunder', 'f', 'f2', 'f3', 'Echo', 'Dunder']),
+    ('shared_code_objects',
+     'import types\n'
+     'def f(a, b=1, *args, **kwargs):\n    return g5(*args, **kwargs)\n'
+     'f2 = types.FunctionType(f.__code__, f.__globals__, "f2", None, f.__closure__)\n'
+     'f3 = types.FunctionType(f.__code__, f.__globals__, "f3", (7, 8), f.__closure__)\n'
+     'f4 = types.FunctionType(f.__code__, dict(f.__globals__, g5=h), "f4", (1,), f.__closure__)\n'
+     'def make(t, d):\n    def fw(a, b=d, *args, k=d, **kwargs):\n        return t(*args, **kwargs)\n    return fw\n'
+     'm1, m2, m3 = make(g, 1), make(h, 2), make(g5, 3)\n'
+     'm4 = make(g, 4)\nm4.__defaults__ = None\nm4.__kwdefaults__ = None\n',
+     ['f3', 'f', 'f2', 'f4', 'm1', 'm2', 'm3', 'm4']),
     ('pep563_module', '#FUTURE#\nimport typing\n'
                       'def noparams() -> typing.List[int]:\n    return []\n'
                       'def fwd(*args, **kwargs) -> int:\n    return g(*args, **kwargs)\n'
@@ -447,7 +518,15 @@ def gen_construct(ch):
         body += STATEMENTS[si].format(va=va, vk=vk) + '\n'
     method = ch.draw(3, 'as-method')
     extra = ('class K0(object):\n    def __init__(self, p=0, *a, **k):\n        pass\n\n'
-             'class Obj0(object):\n    pass\nobj0 = Obj0()\n'
+             'class Obj0(object):\n    raising_prop = property(lambda self: 1 // 0)\n'
+             '    key_prop = property(lambda self: {}["missing"])\nobj0 = Obj0()\n'
+             'def _gen0():\n    raise RuntimeError("iterated")\n    yield 1\nGEN0 = _gen0()\nGEN1 = iter([1, 2])\n'
+             'import collections.abc\n'
+             'class Map0(collections.abc.Mapping):\n    def __getitem__(self, k):\n        raise RuntimeError("read")\n'
+             '    def __iter__(self):\n        raise RuntimeError("iterated")\n    def __len__(self):\n        return 1\n'
+             '    def keys(self):\n        raise RuntimeError("keys")\nMAP0 = Map0()\n'
+             'class Iterable0(object):\n    def __iter__(self):\n        raise OSError("iterated")\nITERABLE0 = Iterable0()\n'
+             'NONE0 = None\nNUM0 = 5\nSTR0 = "ab"\nDICT0 = {"y": 1}\nLIST0 = [1]\n'
              '@contextlib.contextmanager\ndef contextmanager0():\n    yield 1\n')
     future = ch.draw(4, 'postponed-annotations') == 1
     src = ('from __future__ import annotations\n' if future else '') + PRELUDE + 'import contextlib\n' + extra + '\n'
@@ -619,7 +698,9 @@ def check_sphinx(res, dotted, viol, fault):
         res.counters['sphinx_unavailable'] += 1
         return
     try:
-        parent, obj = sphinxext.fetch_dotted_name(dotted)
+        # the harness's own lookup, not sigtools': the expectation must not share a cache or a
+        # mistake with the code under test
+        parent, obj = _fetch_dotted(dotted)
     except Exception:
         res.counters['sphinx_not_reachable'] += 1
         return
@@ -699,6 +780,46 @@ def check_sphinx(res, dotted, viol, fault):
         return
 
 
+def _fetch_dotted(dotted):
+    """(parent, object) for a dotted name: longest importable module prefix, then attributes."""
+    import sys
+    parts = dotted.split('.')
+    for i in range(len(parts) - 1, 0, -1):
+        mod = sys.modules.get('.'.join(parts[:i]))
+        if mod is None:
+            try:
+                __import__('.'.join(parts[:i]))
+                mod = sys.modules['.'.join(parts[:i])]
+            except ImportError:
+                continue
+        parent, obj = None, mod
+        for a in parts[i:]:
+            parent, obj = obj, getattr(obj, a)
+        return parent, obj
+    raise AttributeError(dotted)
+
+
+def check_sphinx_module(res, modname, module, viol, fault):
+    """T4 for the module object itself: autodoc emits autodoc-process-signature for every
+    documenter, automodule included, with the bare (undotted, for a top-level module) name."""
+    try:
+        from sigtools import sphinxext
+    except Exception:
+        return
+    res.evals += 1
+    incoming = ('<in-sig>', '<in-ret>')
+    try:
+        out = sphinxext.process_signature(None, 'module', modname, module, None, incoming[0], incoming[1])
+    except Exception as e:
+        viol('T4', 'sphinx hook raises {0} for a module'.format(type(e).__name__),
+             'process_signature(app, "module", {0!r}, <module>, ...) under {1}: {2}'.format('<top-level module name>', fault, e))
+        return
+    if out != incoming:
+        viol('T4', 'sphinx hook invents a signature for a module', '{0!r}'.format(out))
+        return
+    res.counters['sphinx:module_passthrough'] += 1
+
+
 def _noaddr(pair):
     import re
     return tuple(re.sub(r'0x[0-9a-fA-F]+', '0x', s) for s in pair)
@@ -747,7 +868,21 @@ class C07Gen(object):
                                                 extra=dict(fault=fault, params=spec['params'])))
             any_stars = False
             outcomes = []
-            for label in w.labels():
+            # history: the order in which the subjects of one world are retrieved is drawn, and
+            # some are retrieved again after the others (a result must not depend on what was
+            # retrieved before it)
+            labels = list(w.labels())
+            order = ch.draw(3, 'retrieval-order')
+            if order == 1:
+                labels.reverse()
+            elif order == 2:
+                pool, labels = labels, []
+                while pool:
+                    labels.append(pool.pop(ch.draw(len(pool), 'next-subject')))
+            if len(labels) > 1 and ch.chance(1, 3, 'retrieve-again'):
+                labels = labels + labels[:2]
+                res.counters['probe:subject_retrieved_again_after_others'] += 1
+            for label in labels:
                 try:
                     subj = w.subject(label)
                 except Exception:
@@ -759,10 +894,26 @@ class C07Gen(object):
                 if len(res.violations) > n0:
                     break
                 dotted = w.modname + '.' + label
-                if label.replace('.', '').replace('_', '').isalnum() and cfg.get('sphinx', True):
+                if label.replace('.', '').replace('_', '').isalnum() and cfg.get('sphinx', True) \
+                        and not label.startswith('nodoc_'):
                     check_sphinx(res, dotted, viol, fault)
                     if len(res.violations) > n0:
                         break
+            if cfg.get('sphinx', True) and not res.violations:
+                check_sphinx_module(res, w.modname, w.module, viol, fault)
+            if cfg.get('sphinx', True) and not res.violations:
+                # history: the module is reloaded / names are rebound between two builds of the
+                # documentation -- the hook must describe what the name refers to *now*
+                simple = [l for l in w.labels() if l.isidentifier() and not l.startswith('nodoc_')
+                          and l in w.ns and callable(w.ns[l])]
+                if len(simple) >= 2 and ch.chance(1, 2, 'rebind-and-document-again'):
+                    a, b = simple[0], simple[-1]
+                    w.ns[a], w.ns[b] = w.ns[b], w.ns[a]
+                    res.counters['probe:documented_again_after_rebinding'] += 1
+                    for l in (a, b):
+                        check_sphinx(res, w.modname + '.' + l, viol, fault)
+                        if res.violations:
+                            break
             fired = _reads.get(w.filename, 0) > reads0
             if fault != 'none' and fired:
                 res.counters['fired:' + fault] += 1
